@@ -825,7 +825,44 @@ func c01StatScenario(dotu bool) Scenario {
 				}
 			}
 		}
-		res.Samples = append(res.Samples, "PackDir/UnpackDir over the stat domains alone and in concatenations of up to 3; payloads aliasing the message's own buffer; stat records of 65534..65537 bytes; InitRread(n)+SetRreadCount(c) for all c<=n<=24, in every order with SetTag before/after and a second lower count")
+		// element lists that are part of the recycled message's own fields: continuing a
+		// partial walk with the rest of the names the Fcall already carries, answering
+		// with a part of its qid list
+		for _, k0 := range []int{1, 2, 5, 16} {
+			for a := 0; a <= k0; a++ {
+				for b := a; b <= k0; b++ {
+					names := make([]string, k0)
+					qids := make([]go9p.Qid, k0)
+					wq := make([]wire.Qid, k0)
+					for i := range names {
+						names[i] = fmt.Sprintf("n%d-%s", i, strings.Repeat("x", i%4))
+						qids[i] = go9p.Qid{Type: uint8(i), Version: uint32(i * 3), Path: uint64(1000 + i)}
+						wq[i] = wire.Qid{Type: uint8(i), Vers: uint32(i * 3), Path: uint64(1000 + i)}
+					}
+					fc := go9p.NewFcall(1024)
+					if go9p.PackTwalk(fc, 1, 2, names) != nil {
+						continue
+					}
+					err := go9p.PackTwalk(fc, 3, 4, fc.Wname[a:b])
+					want := wire.Encode(&wire.Msg{Type: wire.Twalk, Tag: wire.NOTAG, Fid: 3, Newfid: 4, Wname: names[a:b]}, dotu)
+					if err != nil || !bytes.Equal(fc.Pkt, want) || strings.Join(fc.Wname, "/") != strings.Join(names[a:b], "/") {
+						fail("C01/elements-from-own-fields/Twalk", fmt.Sprintf("PackTwalk on an Fcall that carried %d names, with its own Wname[%d:%d] as the new names: err %v, Wname %v, packet % x want % x", k0, a, b, err, fc.Wname, fc.Pkt, want))
+					}
+					fr := go9p.NewFcall(1024)
+					if go9p.PackRwalk(fr, qids) != nil {
+						continue
+					}
+					err = go9p.PackRwalk(fr, fr.Wqid[a:b])
+					want = wire.Encode(&wire.Msg{Type: wire.Rwalk, Tag: wire.NOTAG, Wqid: wq[a:b]}, dotu)
+					if err != nil || !bytes.Equal(fr.Pkt, want) {
+						fail("C01/elements-from-own-fields/Rwalk", fmt.Sprintf("PackRwalk on an Fcall that carried %d qids, with its own Wqid[%d:%d]: err %v, packet % x want % x", k0, a, b, err, fr.Pkt, want))
+					}
+					res.Evals += 2
+					res.Nontrivial += 2
+				}
+			}
+		}
+		res.Samples = append(res.Samples, "PackDir/UnpackDir over the stat domains alone and in concatenations of up to 3; payloads aliasing the message's own buffer; walk element lists taken from the recycled message's own fields; stat records of 65534..65537 bytes; InitRread(n)+SetRreadCount(c) for all c<=n<=24, in every order with SetTag before/after and a second lower count")
 		return res
 	}}
 }
